@@ -61,6 +61,9 @@ CHECKS = {
     "C37": C("c37", dict(checks=250, shards=4, timeout=900), dict(checks=4000, shards=16, timeout=6000),
              "property-based testing (rapid): generated sources and edit histories containing invalid features; oracle: independent validity predicate over every feature enumerated from the resulting world",
              "Trusted: the validity rules written in harness/c37 (transcribed from the property statement) and s2's loop validation."),
+    "C38": C("c38", dict(checks=1500, shards=2, timeout=600), dict(checks=20000, shards=16, timeout=6000),
+             "property-based testing (rapid): generated mutation scripts applied to the caller's value (and to clones) after AddFeature; metamorphic oracle: the world's canonical observation and the other copy are unchanged",
+             "Trusted: Observe and the render of feature values in harness/c38. Mutations go through the ingest feature API and exported fields (Members, Keys, Values); mutating the inner expression list of a path tag in place is not included."),
     "C39": C("c39", dict(checks=5000, shards=2, timeout=300), dict(checks=100000, shards=16, timeout=1800),
              "property-based testing (rapid): generated operation sequences on b6.Tags compared step by step with an ordered-list reference model; shrunk failing case saved as JSON replay",
              "Trusted: the ordered-list model in harness/c39; keys are distinct and non-empty as the property states; values are string expressions."),
